@@ -274,11 +274,23 @@ def two_level_cidar(ns, kits, rng):
     if r1 is None:
         return False, "could not build a cassette-level scenario"
     cvec, cmods, ctargets, Ncas = r1
+    # the entries are annotated the way deposited plasmids are: a literature reference and a feature inside the insert that
+    # cites it (the product of one level is used AS IT IS at the next one: its citations must still resolve there)
+    from Bio.SeqFeature import SeqFeature, FeatureLocation, Reference
+    for i_, m_ in enumerate(cmods):
+        ref_ = Reference()
+        ref_.title, ref_.authors, ref_.journal = "paper about entry %d" % i_, "Doe J.", "J. Irreproducible Results"
+        m_.record.annotations["references"] = [ref_]
+        t_ = str(m_.target_sequence().seq)
+        at_ = (str(m_.record.seq) * 2).upper().find(t_.upper())
+        n_ = len(m_.record.seq)
+        if 0 <= at_ and at_ + 3 <= n_:
+            m_.record.features.append(SeqFeature(FeatureLocation(at_ + 1, at_ + 3, strand=1), type="misc_feature", id="cited%d" % i_,
+                                                 qualifiers={"label": ["cited%d" % i_], "citation": ["[1]"]}))
     got, prod, _ = ba.run_assembly(cvec, cmods, id="cas1", name="cas1")
     if got[0] != "product":
         return False, "cassette assembly ended with %r" % (got,)
-    cas = Ncas(CircularRecord(Seq(str(prod.seq)), id="cas1", name="cas1", features=list(prod.features),
-                              annotations={"topology": "circular", "molecule_type": "ds-DNA"}))
+    cas = Ncas(prod)
     if not cas.is_valid():
         return False, "the cassette-level product is not a valid CIDARCassette"
     o5, o3 = str(cas.overhang_start()), str(cas.overhang_end())
